@@ -156,8 +156,9 @@ def C01(rep):
 def C05(rep):
     chan_mc(rep, rep.tier)
     sync = [f for f in ALL_CHAN if not f.endswith("_async") and f != "oneshot"]
-    chan_sched(rep, sync, n(rep.tier, 80, 3000), [1, 2, 3], seed_off=606, label="chan-sched-sync")
-    chan_sched(rep, sync, n(rep.tier, 40, 1500), [1], strategies=("pct5", "random"), seed_off=707,
+    chan_sched(rep, sync, n(rep.tier, 240, 6000), [1, 2, 3], strategies=("random", "pct", "pct5"), seed_off=606,
+               label="chan-sched-sync")
+    chan_sched(rep, sync, n(rep.tier, 160, 4000), [1], strategies=("pct5", "random", "pct"), seed_off=707,
                label="chan-sched-cap1")
     rep.assumptions += CHAN_ASSUME + [
         "a blocked thread is one the scheduler finds parked with no unpark pending after a grace period; spurious unparks are legal and used only to wind a run down"]
